@@ -401,6 +401,9 @@ def meshgen_suite(stats, tier=None, label="function:meshgen"):
             for rep in range(2 if tier == "quick" else 3):
                 rng = core.rng_for("meshgen", nx, ny, sym, rep); k += 1
                 span = float(rng.uniform(2, 40)); chord = float(rng.uniform(0.3, 5)); s = float(rng.choice([0.0, 1.0, rng.uniform(0, 1)]))
+                if rep == 1:
+                    # whole-number dimensions given as Python ints, as in `{"span": 10, "root_chord": 1}`
+                    span = int(rng.integers(2, 40)); chord = int(rng.integers(1, 6))
                 cs = float(rng.choice([0.0, 1.0, rng.uniform(0, 1)])); off = rng.normal(size=3) * 3 * float(rng.integers(2))
                 def add(what, real, op, ints, floats, exact=False):
                     mod = core.model_value(op, ints, floats)
